@@ -266,10 +266,13 @@ def step(ctx, c, twin, dtypes, hist, kind, n, span, op, optag, opval_factory, ta
 
     def opval_factory(obj=None):   # noqa: F811 - the operand for `obj` (the object under test by default)
         if optag == 'own-series':
-            # the live series of another variable of the same object, passed as the value
+            # the live series of another variable of the same object, passed as the value of a *variable* assignment
+            # (never stored as a plain attribute: that would make the harness itself hold two names for one array)
             o = c if obj is None else obj
             others = [k for k in o.__dict__['index'] if k != target]
-            return getattr(o, others[0]) if others else np.arange(n, dtype=float)
+            if op not in ('attr', 'item', 'replace', 'label', 'lslice') or not others:
+                return np.arange(n, dtype=float)
+            return o.__dict__['_' + others[0]]
         return _factory()
     operand = opval_factory()
     try:
